@@ -1144,6 +1144,9 @@ func (self *LockManager) ProcessLockData(command *protocol.LockCommand, lock *Lo
 					i += 4
 					continue
 				}
+				if valueLen > len(self.currentData.data)-i-4 {
+					break
+				}
 				values = append(values, self.currentData.data[i+4:i+4+valueLen])
 				i += valueLen + 4
 			}
@@ -1328,6 +1331,9 @@ func (self *LockManager) ProcessRecoverLockData(lock *Lock) {
 					i += 4
 					continue
 				}
+				if valueLen > len(self.currentData.data)-i-4 {
+					break
+				}
 				value := self.currentData.data[i+4 : i+4+valueLen]
 				values = append(values, value)
 				i += valueLen + 4
@@ -1368,6 +1374,9 @@ func (self *LockManager) ProcessRecoverLockData(lock *Lock) {
 				if valueLen == 0 {
 					i += 4
 					continue
+				}
+				if valueLen > len(self.currentData.data)-i-4 {
+					break
 				}
 				values = append(values, self.currentData.data[i+4:i+4+valueLen])
 				i += valueLen + 4
